@@ -39,6 +39,15 @@ func NewClientServerStream(ctx context.Context) *ClientServerStream {
 }
 
 func (s *ClientServerStream) Close(err error) {
+	// like a real server, headers that were set but not sent yet go out with the status
+	s.headerM.Lock()
+	select {
+	case <-s.headerC:
+	default:
+		close(s.headerC)
+	}
+	s.headerM.Unlock()
+
 	s.closeErrM.Lock()
 	s.closeErr = err
 	s.closeErrM.Unlock()
